@@ -3,8 +3,11 @@
 # property (seeded/<id>/checks.txt overrides the default = the property id) and rewrites seeded/<id>/meta.json.
 HERE="$(cd "$(dirname "${BASH_SOURCE[0]}")/.." && pwd)"
 TIER="${1:-quick}"
+# usage: tools/evalall.sh [tier] [id-regex]; SKIP_CONFIRM=1 skips the demo / repo-test confirmation (already recorded)
+RE="${2:-.}"
 for d in "$HERE"/seeded/*/; do
   id=$(basename "$d"); p=${id%-*}
+  echo "$id" | grep -Eq "$RE" || continue
   checks="$p"; [ -f "$d/checks.txt" ] && checks="$(cat "$d/checks.txt")"
   echo "== $id -> $checks"
   "$HERE/tools/evalseed.sh" "$d" "$checks" "$TIER" 2>&1 | grep -E "demo-with|repo-tests|exit="
